@@ -90,6 +90,11 @@ class AssertBoundsInputs:
                 raise IndexError(
                     "bounds expected to be in range [0, 1], " f"received {bounds}"
                 )
+        elif isinstance(bounds, float):
+            if not 0 <= bounds <= 1:
+                raise IndexError(
+                    "bounds expected to be in range [0, 1], " f"received {bounds}"
+                )
 
 
 class AssertBounds:
